@@ -295,6 +295,26 @@ def gen(rng, tier):
             for b in FIXED_TEXTS:
                 if rng.randrange(3) == 0 or thorough:
                     reqs.append(parse_reqs(rng, r, b))
+        # ---------------------------------------------------------------- parse: the whole byte alphabet
+        # every byte value 0..255 in a digit position, for every radix: the digit classifier is a table over
+        # (byte, radix) and any folding trick (b | 0x20, b - b'0' wrap-around, ...) is wrong on a few cells only (C06-s1)
+        if rnd == 0:
+            k = 0
+            for r in range(2, 37):
+                for c in range(256):
+                    k += 1
+                    mid = b"1" + bytes([c]) + b"0"
+                    alone = bytes([c])
+                    for b in (mid, alone):
+                        ops = ["u.parse_bytes", "i.parse_bytes"] + (["u.from_str", "i.from_str"] if c < 0x80 else [])
+                        if thorough:
+                            for op in ops:
+                                reqs.append(parse_reqs(rng, r, b, op))
+                        else:
+                            reqs.append(parse_reqs(rng, r, b, ops[k % len(ops)]))
+                            k += 1
+                    if c < 0x80 and (thorough or k % 3 == 0):
+                        reqs.append(parse_reqs(rng, r, b"-" + alone + b"1", "i.from_str"))
         for b in FIXED_TEXTS:
             reqs.append("C06 u.parse %s" % wbytes(b)) if is_utf8(b) else None
             reqs.append("C06 i.parse %s" % wbytes(b)) if is_utf8(b) else None
